@@ -585,16 +585,25 @@ class Interp:
     def cover(self, path, timeout_ms=10000):
         """Vacuity guard: are the premises of this path (axioms + assumptions + branch decisions) satisfiable?
         Uses MBQI (can build models for the quantified background); returns 'sat' | 'unsat' | 'unknown'."""
+        axs = list(self.world.axioms(self))
+        # canary: with the same instantiation engine the proofs use (E-matching), `false` must not be derivable from the premises
+        c = z3.Solver()
+        c.set("timeout", timeout_ms)
+        c.set("smt.mbqi", False)
+        c.set("smt.auto_config", False)
+        for f in axs + list(path.assumed):
+            c.add(f)
+        t = time.time()
+        if c.check() == z3.unsat:
+            self.solver_time += time.time() - t
+            return "unsat"
         s = z3.Solver()
         s.set("timeout", timeout_ms)
-        for ax in self.world.axioms(self):
-            s.add(ax)
-        for f in path.assumed:
+        for f in axs + list(path.assumed):
             s.add(f)
-        t = time.time()
         r = s.check()
         self.solver_time += time.time() - t
-        return str(r)
+        return str(r) if r != z3.unknown else "unknown(canary-passed)"
 
     def _check(self, extra, timeout=None):
         s = self.solver
